@@ -126,6 +126,20 @@ def make_symbolic(I, kind, name):
                 o.fields[f] = make_symbolic(I, fk, "%s.%s" % (name, f))
         o.meta['initial_fields'] = dict(o.fields)
         return o
+    if tag == 'obj_open':
+        # an object in the middle of its life: besides the given fields it may carry any other
+        # instance attribute (left by earlier calls) with an unknown, possibly None value
+        o = make_symbolic(I, ('obj',) + tuple(kind[1:]), name)
+
+        def dyn(I2, obj, fname):
+            v = SOpt(fresh("%s.%s_isnone" % (name, fname), z3.BoolSort()),
+                     Opaque('object', "%s.%s" % (name, fname)))
+            obj.fields[fname] = v
+            obj.meta.setdefault('lazy_created', {})[fname] = v
+            obj.meta.setdefault('initial_fields', {})[fname] = v
+            return v
+        o.meta['dynamic'] = dyn
+        return o
     if tag == 'ctor':
         cls = _resolve_class(kind[1])
         kw = {a: make_symbolic(I, k, "%s.%s" % (name, a)) for a, k in kind[2].items()}
